@@ -733,6 +733,15 @@ def stmt_ast(st):
     from beanquery.parser import ast
     if isinstance(st, Query):
         return to_ast(st, alias_all=False)
+    _ALIAS_ALL.append(False)
+    try:
+        return _stmt_ast(st)
+    finally:
+        _ALIAS_ALL.pop()
+
+
+def _stmt_ast(st):
+    from beanquery.parser import ast
     f = st.from_
     from_clause = None
     if f is not None:
